@@ -7,7 +7,7 @@
 using namespace libphysica;
 typedef std::vector<std::vector<double>> Rows;
 
-static const int NPAT = 7;
+static const int NPAT = 9;
 static double entry(int pat, int i, int j, int salt)
 {
 	static const double half[] = {0, 0.5, -0.5, 1, -1, 1.5, -1.5, 2, -2, 2.5, -2.5, 3, -3};
@@ -19,6 +19,9 @@ static double entry(int pat, int i, int j, int salt)
 		case 3: return half[(i * j + i + salt) % 13];				  // many zeros in row/column 0
 		case 4: return ((i + j + salt) % 2) ? -1.0 : 1.0;
 		case 5: return half[(7 * i + 11 * j + 3 * salt + (i > j ? 5 : 0)) % 13];
+		// the whole operand at a tiny / huge scale (a power of two: every sum and product stays exact)
+		case 7: return std::ldexp(half[(7 * i + 11 * j + 3 * salt + (i > j ? 5 : 0)) % 13], -80);
+		case 8: return std::ldexp(half[(i * i + 2 * j + salt * 7 + 1) % 13], 80);
 		default:
 		{
 			static const double mixed[] = {1024.0, 1.0 / 1024, -1.0, 0.0, 3.0, -1024.0, -1.0 / 1024};
@@ -64,7 +67,9 @@ static void triple(int m, int n, int k, int pa, int pb)
 static void triple_body(int m, int n, int k, int pa, int pb)
 {
 	std::string cfg = "m=" + std::to_string(m) + ",n=" + std::to_string(n) + ",k=" + std::to_string(k) + ",patA=" + std::to_string(pa) + ",patB=" + std::to_string(pb);
-	Rows a = make(m, n, pa, 0), b = make(n, k, pb, 1), c = make(m, n, pb, 2);
+	// A and C are added and subtracted: they share a scale (patterns 7 and 8 live at 2^-80 and 2^80); products are exact at any pair of scales
+	auto scale_class = [](int p) { return p == 7 ? -1 : p == 8 ? 1 : 0; };
+	Rows a = make(m, n, pa, 0), b = make(n, k, pb, 1), c = make(m, n, scale_class(pb) == scale_class(pa) ? pb : pa, 2);
 	Matrix A(a), B(b), C(c);
 	// element-wise sums and differences, all spellings
 	Rows s(m, std::vector<double>(n)), d(m, std::vector<double>(n));
@@ -222,7 +227,7 @@ static void members(int m, int n, int pat)
 			for(int j = 0; j < n; j++)
 			{
 				Matrix D(A);
-				D[i][j] += 0.25;
+				D[i][j] = (D[i][j] == 0) ? 0.25 : D[i][j] * 1.5;	// a change at the entry's own scale
 				CHECK(!(D == A) && !(A == D), "operator==", "detects_single_entry_difference");
 			}
 		CHECK(!(A == Matrix(m, n + 1, 0.0)) && !(A == Matrix(m + 1, n, 0.0)), "operator==", "different_shapes_unequal");
@@ -297,14 +302,16 @@ static void predicates(int n, int pat)
 	for(int i = 0; i < n; i++)
 		for(int j = 0; j < n; j++)
 		{
+			// a change at the scale of the matrix (pattern 8 lives at 2^80, where adding 0.25 changes nothing)
+			double bump = pat == 8 ? std::ldexp(0.25, 80) : pat == 7 ? std::ldexp(0.25, -80) : 0.25;
 			Rows t = sy;
-			t[i][j] += 0.25;
+			t[i][j] += bump;
 			CHECK(Matrix(t).Symmetric() == (i == j), "Symmetric", "single_entry_perturbation");
 			t = an;
-			t[i][j] += 0.25;
+			t[i][j] += bump;
 			CHECK(!Matrix(t).Antisymmetric(), "Antisymmetric", "single_entry_perturbation");
 			t = di;
-			t[i][j] += 0.25;
+			t[i][j] += bump;
 			CHECK(Matrix(t).Diagonal() == (i == j), "Diagonal", "single_entry_perturbation");
 		}
 	for(int k = 1; k <= 3; k++)
@@ -411,12 +418,145 @@ static void conformability(int bound, unsigned long long& unit)
 		}
 }
 
+// ---- object histories: every answer of a used object is that of a fresh object with the same visible contents ---------------------
+static std::string observe(const Vector& v)
+{
+	std::string o = "size=" + std::to_string(v.Size()) + ";norm=" + mc::hexd(v.Norm()) + ";dot=" + mc::hexd(v.Dot(v)) + ";star=" + mc::hexd(v * v) + ";normalized=";
+	if(v.Size() && v.Norm() > 0) { Vector u = v.Normalized(); for(unsigned i = 0; i < u.Size(); i++) o += mc::hexd(u[i]) + ","; }
+	Vector d = v + v, h = v / 2.0;
+	o += ";sum=";
+	for(unsigned i = 0; i < d.Size(); i++) o += mc::hexd(d[i]) + "," + mc::hexd(h[i]) + ",";
+	return o;
+}
+static std::string observe(const Matrix& M)
+{
+	std::string o = std::to_string(M.Rows()) + "x" + std::to_string(M.Columns()) + ";norm=" + mc::hexd(M.Norm()) + ";sym=" + std::to_string(M.Symmetric()) + std::to_string(M.Antisymmetric()) + std::to_string(M.Diagonal()) + std::to_string(M.Square());
+	if(M.Square() && M.Rows() > 0) o += ";trace=" + mc::hexd(M.Trace()) + ";det=" + mc::hexd(M.Determinant()) + ";invertible=" + std::to_string(M.Invertible());
+	Matrix T = M.Transpose();
+	o += ";T=";
+	for(unsigned i = 0; i < T.Rows(); i++)
+		for(unsigned j = 0; j < T.Columns(); j++) o += mc::hexd(T[i][j]) + ",";
+	return o;
+}
+static void object_histories(unsigned long long& unit)
+{
+	// Vector: letters = queries and in-place mutations
+	const char* VL[] = {"Norm()", "Normalized()", "Dot(self)", "+= w", "-= w", "v[0] = 3", "v[last] = -0.5", "Normalize()", "Resize(n+1)", "Resize(n-1)", "Assign(n,2)", "= w", "v[0] *= 2 (through operator[])"};
+	const int NV = 13;
+	int depth = mc::thorough() ? 4 : 3;
+	long long total = 1;
+	for(int i = 0; i < depth; i++) total *= NV;
+	for(int n = 1; n <= 3; n++)
+		for(int pat = 0; pat < 3; pat++)
+			for(long long code = 0; code < total; code++)
+			{
+				if(!mc::mine(unit + (code >> 5))) continue;
+				std::vector<double> base(n), wv(n);
+				for(int i = 0; i < n; i++) { base[i] = entry(pat + 1, i, 1, 3); wv[i] = entry(pat + 2, 2, i, 4) + (i == 0 ? 1 : 0); }
+				if(base[0] == 0 && n == 1) base[0] = 1.5;
+				Vector v(base), w(wv);
+				std::string hist;
+				long long c = code;
+				bool dead = false;
+				for(int step = 0; step < depth && !dead; step++)
+				{
+					int l = c % NV;
+					c /= NV;
+					hist += std::string(VL[l]) + ";";
+					if(mc::library_exits([&]() {
+						   switch(l)
+						   {
+							   case 0: { volatile double x = v.Norm(); (void)x; break; }
+							   case 1: if(v.Size() && v.Norm() > 0) { Vector u = v.Normalized(); } break;
+							   case 2: { volatile double x = v.Dot(v); (void)x; break; }
+							   case 3: if(v.Size() == w.Size()) v += w; break;
+							   case 4: if(v.Size() == w.Size()) v -= w; break;
+							   case 5: if(v.Size()) v[0] = 3; break;
+							   case 6: if(v.Size()) v[v.Size() - 1] = -0.5; break;
+							   case 7: if(v.Size() && v.Norm() > 0) v.Normalize(); break;
+							   case 8: v.Resize(v.Size() + 1); break;
+							   case 9: if(v.Size() > 1) v.Resize(v.Size() - 1); break;
+							   case 10: v.Assign(v.Size(), 2.0); break;
+							   case 11: v = w; break;
+							   default: if(v.Size()) v[0] *= 2; break;
+						   }
+					   }))
+					{
+						fail("object_histories", "Vector,n=" + std::to_string(n) + ",pat=" + std::to_string(pat) + ",history=" + hist, "valid_request_terminated_process");
+						dead = true;
+						break;
+					}
+					std::vector<double> contents(v.Size());
+					for(unsigned i = 0; i < v.Size(); i++) contents[i] = ((const Vector&)v)[i];
+					Vector fresh(contents);
+					g_checks++;
+					mc::count("object_history_transitions", 1);
+					if(observe(v) != observe(fresh)) { fail("object_histories", "Vector,n=" + std::to_string(n) + ",pat=" + std::to_string(pat) + ",history=" + hist, "used_object_differs_from_fresh_object_with_same_contents"); break; }
+				}
+			}
+	unit += 9 * ((total >> 5) + 1);
+	// Matrix
+	const char* ML[] = {"Norm()", "Determinant()", "Trace()", "Transpose()", "+= B", "-= B", "M[0][0] = 3", "M[last][0] = -0.5", "Resize(r+1,c)", "Delete_Row(0)", "Delete_Column(last)", "Assign(r,c,2)", "= B", "row 0 := row of B"};
+	const int NM = 14;
+	int mdepth = 3;
+	long long mtotal = 1;
+	for(int i = 0; i < mdepth; i++) mtotal *= NM;
+	for(int n = 2; n <= 3; n++)
+		for(int pat = 0; pat < 2; pat++)
+			for(long long code = 0; code < mtotal; code++)
+			{
+				if(!mc::mine(unit + (code >> 5))) continue;
+				Matrix M(make(n, n, pat + 1, 0)), B(make(n, n, pat + 3, 1));
+				std::string hist;
+				long long c = code;
+				for(int step = 0; step < mdepth; step++)
+				{
+					int l = c % NM;
+					c /= NM;
+					hist += std::string(ML[l]) + ";";
+					bool sq = M.Rows() == M.Columns() && M.Rows() > 0, same = M.Rows() == B.Rows() && M.Columns() == B.Columns();
+					if(mc::library_exits([&]() {
+						   switch(l)
+						   {
+							   case 0: { volatile double x = M.Norm(); (void)x; break; }
+							   case 1: if(sq) { volatile double x = M.Determinant(); (void)x; } break;
+							   case 2: if(sq) { volatile double x = M.Trace(); (void)x; } break;
+							   case 3: { Matrix T = M.Transpose(); break; }
+							   case 4: if(same) M += B; break;
+							   case 5: if(same) M -= B; break;
+							   case 6: if(M.Rows() && M.Columns()) M[0][0] = 3; break;
+							   case 7: if(M.Rows() && M.Columns()) M[M.Rows() - 1][0] = -0.5; break;
+							   case 8: M.Resize(M.Rows() + 1, M.Columns()); break;
+							   case 9: if(M.Rows() > 1) M.Delete_Row(0); break;
+							   case 10: if(M.Columns() > 1) M.Delete_Column(M.Columns() - 1); break;
+							   case 11: M.Assign(M.Rows(), M.Columns(), 2.0); break;
+							   case 12: M = B; break;
+							   default: if(M.Rows() && M.Columns() == B.Columns()) for(unsigned j = 0; j < M.Columns(); j++) M[0][j] = B[0][j]; break;
+						   }
+					   }))
+					{
+						fail("object_histories", "Matrix,n=" + std::to_string(n) + ",pat=" + std::to_string(pat) + ",history=" + hist, "valid_request_terminated_process");
+						break;
+					}
+					Rows contents(M.Rows(), std::vector<double>(M.Columns()));
+					for(unsigned i = 0; i < M.Rows(); i++)
+						for(unsigned j = 0; j < M.Columns(); j++) contents[i][j] = ((const Matrix&)M)[i][j];
+					if(contents.empty()) break;
+					Matrix fresh(contents);
+					g_checks++;
+					mc::count("object_history_transitions", 1);
+					if(observe(M) != observe(fresh)) { fail("object_histories", "Matrix,n=" + std::to_string(n) + ",pat=" + std::to_string(pat) + ",history=" + hist, "used_object_differs_from_fresh_object_with_same_contents"); break; }
+				}
+			}
+	unit += 4 * ((mtotal >> 5) + 1);
+}
+
 int main(int argc, char** argv)
 {
 	mc::init(argc, argv);
 	if(mc::ctx().replay) { printf("%s\n(no single-case replay for this part; use ./vcheck --replay <file>, which re-runs the enumeration for this key)\n", mc::ctx().replay_case.c_str()); return 0; }
 	int bound = mc::thorough() ? 8 : 5;
-	mc::bound("rule", "every shape triple (m,n,k) up to the bound x every ordered pair of 7 deterministic fill patterns over half-integers / powers of two (all arithmetic exact, all oracles equalities); every ordered pair of shapes for +,-,+=,-= in child processes under ASan/UBSan; a case is one (shape triple, pattern pair); non-trivial = at least one dimension differs from the others (non-square operands)");
+	mc::bound("rule", "every shape triple (m,n,k) up to the bound x every ordered pair of 9 deterministic fill patterns over half-integers / powers of two (two of them at the scales 2^-80 and 2^80) (all arithmetic exact, all oracles equalities); every ordered pair of shapes for +,-,+=,-= in child processes under ASan/UBSan; a case is one (shape triple, pattern pair); non-trivial = at least one dimension differs from the others (non-square operands)");
 	mc::bound("shape_bound", std::to_string(bound));
 	mc::alphabet("fill_patterns", NPAT);
 	unsigned long long unit = 0;
@@ -460,6 +600,8 @@ int main(int argc, char** argv)
 						cases++;
 					}
 		if(mc::shard0()) { blocks(); cases += mc::ctx().counters["block_arrangements"]; }
+		object_histories(unit);
+		cases += mc::ctx().counters["object_history_transitions"];
 		// Cross against the definition on every pair of 3-vectors over a small alphabet
 		if(mc::shard0())
 		{
